@@ -704,7 +704,7 @@ Interpolation Perform_KDE(std::vector<DataPoint> data, double xMin, double xMax,
 	Interpolation result(Interpol_List);
 
 	// 3. Check normalization/ re-normalize.
-	double norm = Integrate(result, xMin, xMax, 1e-8);
+	double norm = result.Integrate(xMin, xMax);
 	result.Multiply(1.0 / norm);
 
 	return result;
